@@ -521,6 +521,10 @@ func (rw *rewriter) selectStmt(n *ast.SelectStmt) ast.Stmt {
 	hd := "false"
 	if hasDefault {
 		hd = "true"
+	} else {
+		// keeps the statement terminating where the select was
+		clauses = append(clauses, &ast.CaseClause{Body: append(use(), &ast.ExprStmt{X: &ast.CallExpr{
+			Fun: ast.NewIdent("panic"), Args: []ast.Expr{&ast.BasicLit{Kind: token.STRING, Value: `"vrt: select without ready case"`}}}})})
 	}
 	args := append([]ast.Expr{ast.NewIdent(hd)}, cases...)
 	init := &ast.AssignStmt{Lhs: []ast.Expr{ast.NewIdent(iv), ast.NewIdent(vv), ast.NewIdent(okv)}, Tok: token.DEFINE,
